@@ -96,7 +96,8 @@ def proxied_engine(job, variant, sink):
 class Harvest:
     """records every reducer / view call made through ComponentMethodWrapper during real runs"""
 
-    def __init__(self, per_key_limit: int):
+    def __init__(self, per_key_limit: int, only=None):
+        self.only = only          # optional set of (class name, method): harvest nothing else
         self.calls: dict[str, dict] = {}
         self.per_class: dict[tuple, int] = {}
         self.limit = per_key_limit
@@ -111,7 +112,7 @@ class Harvest:
             owner = getattr(f, "__self__", None)
             if owner is not None:
                 key = (type(owner).__name__, f.__name__)
-                if harvest.per_class.get(key, 0) < harvest.limit:
+                if (harvest.only is None or key in harvest.only) and harvest.per_class.get(key, 0) < harvest.limit:
                     try:
                         sig = canon([key, [a.model_dump() if hasattr(a, "model_dump") else a for a in args]])
                     except Exception:
@@ -162,6 +163,127 @@ def purity_check(call) -> Optional[dict]:
     if canon_safe(r1) != canon_safe(r2) or canon_safe(r1) != canon_safe(r3):
         return {"kind": "not-deterministic", "first": r1, "second": r2, "on_copy": r3}
     return None
+
+
+# ------------------------------------------------------------------ C08: observations for the effect model
+_PRIMS = (int, float, str, bool, type(None), bytes, complex)
+
+
+def _is_prim_value(v) -> bool:
+    import enum
+    if isinstance(v, _PRIMS) or isinstance(v, enum.Enum):
+        return True
+    if isinstance(v, (tuple, frozenset)):
+        return all(_is_prim_value(x) for x in v)
+    return False
+
+
+def mutable_ids(obj, acc=None, path="", skip_fields=()):
+    """id -> path of every mutable object (pydantic model, list, dict, set) reachable from obj"""
+    acc = {} if acc is None else acc
+    if _is_prim_value(obj):
+        return acc
+    if hasattr(obj, "model_fields") and hasattr(obj, "__dict__"):
+        if id(obj) in acc:
+            return acc
+        acc[id(obj)] = path
+        for k, v in obj.__dict__.items():
+            if k in skip_fields:
+                continue
+            mutable_ids(v, acc, f"{path}.{k}", skip_fields)
+        return acc
+    if isinstance(obj, dict):
+        if id(obj) in acc:
+            return acc
+        acc[id(obj)] = path
+        for k, v in obj.items():
+            mutable_ids(v, acc, f"{path}[{k!r}]", skip_fields)
+        return acc
+    if isinstance(obj, (list, set)):
+        if id(obj) in acc:
+            return acc
+        acc[id(obj)] = path
+        for i, v in enumerate(obj):
+            mutable_ids(v, acc, f"{path}[{i}]", skip_fields)
+        return acc
+    if isinstance(obj, tuple):
+        for i, v in enumerate(obj):
+            mutable_ids(v, acc, f"{path}[{i}]", skip_fields)
+        return acc
+    if id(obj) not in acc:
+        acc[id(obj)] = path
+    return acc
+
+
+def classification_mismatches(obj, ty_of_annotation, PRIM, seen=None, path="", out=None):
+    """fields whose static type the translator treats as immutable but whose run-time value is a mutable object"""
+    import typing
+    out = [] if out is None else out
+    seen = set() if seen is None else seen
+    if _is_prim_value(obj) or id(obj) in seen:
+        return out
+    seen.add(id(obj))
+    if hasattr(obj, "model_fields") and hasattr(obj, "__dict__"):
+        cls = type(obj)
+        try:
+            hints = typing.get_type_hints(cls)
+        except Exception:
+            hints = {}
+        import sys as _sys
+        for k, v in obj.__dict__.items():
+            f = cls.model_fields.get(k)
+            if f is not None:
+                ty = ty_of_annotation(hints.get(k, f.annotation), vars(_sys.modules[cls.__module__]))
+                if ty == PRIM and not _is_prim_value(v):
+                    out.append(f"{path}.{k}: {cls.__name__}.{k} is statically immutable but holds {type(v).__name__}")
+            classification_mismatches(v, ty_of_annotation, PRIM, seen, f"{path}.{k}", out)
+    elif isinstance(obj, dict):
+        for k, v in obj.items():
+            classification_mismatches(v, ty_of_annotation, PRIM, seen, f"{path}[{k!r}]", out)
+    elif isinstance(obj, (list, tuple, set)):
+        for i, v in enumerate(obj):
+            classification_mismatches(v, ty_of_annotation, PRIM, seen, f"{path}[{i}]", out)
+    return out
+
+
+def effect_observation(call) -> dict:
+    """what one real call did, in the terms of the effect model: which (entity, field) pairs of the state
+    changed, and which mutable objects of the result already existed before the call"""
+    owner, method, args = call["owner"], call["method"], call["args"]
+    args = copy.deepcopy(args)
+    fn = getattr(owner, method)
+    pre = {}
+    mutable_ids(list(args), pre, "args")
+    mutable_ids(owner, pre, "self")
+    obs = {"changed": [], "aliases": [], "raised": None}
+    state_in = args[-1]
+    before = state_in.model_dump() if hasattr(state_in, "model_dump") else None
+    try:
+        res = fn(*args)
+    except Exception as e:
+        obs["raised"] = f"{type(e).__name__}: {e}"
+        return obs
+    if call["is_view"] or not isinstance(res, tuple):
+        return obs
+    state_out = res[0]
+    if hasattr(state_out, "model_dump") and before is not None:
+        after = state_out.model_dump()
+        for ent, d0 in before.items():
+            d1 = after.get(ent)
+            if d0 == d1:
+                continue
+            if isinstance(d0, dict) and isinstance(d1, dict):
+                for f in set(d0) | set(d1):
+                    if d0.get(f) != d1.get(f):
+                        obs["changed"].append([ent, f, isinstance(d0.get(f), (list, dict)) or isinstance(d1.get(f), (list, dict))])
+            else:
+                obs["changed"].append([ent, "", False])
+    post = {}
+    mutable_ids(state_out, post, "result")
+    for i, pth in post.items():
+        if i in pre:
+            obs["aliases"].append([pth, pre[i]])
+    return obs
 
 
 def canon_safe(x):
